@@ -12,19 +12,24 @@ UNIT = {
     'calls': {
         'm:StringRef::find_first_not_of': ('strref_find_first_not_of', 'v'), 'm:StringRef::find_first_of': ('strref_find_first_of', 'vv'),
         'm:StringRef::slice': ('strref_slice', 'vv'), 'm:StringRef::size': 'strref_size', 'o:[]:StringRef': '$o->ptr[$0]',
-        'c:StringRef(const std::string &)': 'strref_of_lit', 'c:StringRef(const string &)': 'strref_of_lit', 'c:StringRef(const char *)': 'strref_of_lit',
+        'c:StringRef(const std::string &)': 'strref_make($0, sizeof($0) - 1)', 'c:StringRef(const string &)': 'strref_make($0, sizeof($0) - 1)', 'c:StringRef(const char *)': 'strref_make($0, sizeof($0) - 1)',
         'o:<<:raw_ostream': 'verif_out_any',
     },
-    'call_patterns': [(r'c:(basic_string<char>|string|std::string)\(const char \*.*\)', ('vstr_lit', 'v')), (r'fn:operator<<', 'verif_out_any')],
+    'call_patterns': [(r'c:(basic_string<char>|string|std::string)\(const char \*.*\)', ('vstr_lit1($0, sizeof($0) - 1)', 'v')), (r'fn:operator<<', 'verif_out_any')],
     'prelude': '#include "models/base.h"\n#include "models/shellesc.h"\n',
     'functions': {
         'appendShellEscapedString': {
-            'bounded': 'non-empty inputs of length <= 3, all byte values except NUL; all loops unwound (80) with unwinding assertions',
-            'no_loop_contracts': True, 'unwind': 80,
-            'requires': ['__CPROVER_is_fresh(os, sizeof(*os))', 'string.len >= 1 && string.len <= 3', '__CPROVER_is_fresh(string.ptr, 3)',
-                         'string.ptr[0] != 0 && (string.len < 2 || string.ptr[1] != 0) && (string.len < 3 || string.ptr[2] != 0)', 'g_outlen == 0'],
-            'assigns': ['g_outlen', '__CPROVER_object_whole(g_out)'],
-            'ensures': [('P:C17', 'verif_sh_yields(string)')],
+            'bounded': 'non-empty inputs of length <= 4 (quick) / 6 (thorough), all byte values except NUL; every loop unwound with unwinding assertions',
+            'unwind': {'quick': 36, 'thorough': 36},
+            'plain_harness': '''
+  char in[6]; size_t n; struct raw_ostream os;
+  __CPROVER_assume(n >= 1 && n <= VERIF_SHELL_MAXLEN);
+  for (size_t i = 0; i < 6; i++) __CPROVER_assume(i >= n || in[i] != 0);
+  strref s; s.ptr = in; s.len = n;
+  g_outlen = 0;
+  appendShellEscapedString(&os, s);
+  __CPROVER_assert(verif_sh_yields(s), "[P:C17] the escaped string, read by sh, is exactly one word equal to the original path");
+''',
         },
     },
 }
